@@ -86,7 +86,7 @@ func (in *Interp) eval(e ast.Expr, st *State) []ev {
 						in.resolvingFree = map[*types.Var]bool{}
 					}
 					in.resolvingFree[ob] = true
-					res := in.composite(lit, st)
+					res := in.eval(lit, st)
 					delete(in.resolvingFree, ob)
 					if len(res) == 1 {
 						if r, ok := res[0].v.(Ref); ok {
@@ -837,9 +837,15 @@ func (in *Interp) store(lhs ast.Expr, v Val, st *State) {
 			}
 			if r, ok := base.(Ref); ok {
 				if ob := st.heap[r.ID]; ob != nil {
+					if in.Hooks.FieldStore != nil {
+						in.Hooks.FieldStore(st, base, x.Sel.Name, ob.Fields[x.Sel.Name], v)
+					}
 					ob.Fields[x.Sel.Name] = v
 					return
 				}
+			}
+			if in.Hooks.FieldStore != nil {
+				in.Hooks.FieldStore(st, base, x.Sel.Name, st.symFields[base.Canon()+"."+x.Sel.Name], v)
 			}
 			st.Emit("store "+base.Canon()+"."+x.Sel.Name, lhs.Pos(), v)
 			if st.symFields == nil {
@@ -901,8 +907,14 @@ func (in *Interp) call(x *ast.CallExpr, st *State) []ev {
 	// a function-valued variable that is just another name for a function value of the analysed function (a helper's
 	// parameter handed `produce`, a factory's parameter): the call is known by the name of what it holds
 	if v, isVar := calleeObj.(*types.Var); isVar && strings.HasPrefix(callee, "value:") {
+		var fexpr ast.Expr
 		if id := identOf(x.Fun); id != nil {
-			if res := in.eval(id, st); len(res) == 1 && res[0].st == st {
+			fexpr = id
+		} else if sel, ok := core.Unparen(x.Fun).(*ast.SelectorExpr); ok && v.IsField() {
+			fexpr = sel // a function kept in a field of a state object
+		}
+		if fexpr != nil {
+			if res := in.eval(fexpr, st); len(res) == 1 && res[0].st == st {
 				if sym, ok := res[0].v.(Sym); ok && sym.Name != v.Name() && plainIdentRE.MatchString(sym.Name) {
 					callee = "value:" + sym.Name
 				}
